@@ -11,9 +11,11 @@ Corr   : the Lean model `Walks` (exact Gauss-Jordan over Rat, exact integer matr
 import sys
 from fractions import Fraction
 from common import *  # noqa
+sys.path.insert(0, os.path.join(VERIF, 'translate')); import cores  # noqa: E402
 
 PID = 'C18'
 TOL = 1e-8
+NMODEL = 12            # the Lean model replays cases up to this size; larger ones are judged by the residual predicates only
 TOL_SINGLE = 5e-5      # float32 storage, and bool / uint8 storage (scipy.linalg runs those in single precision)
 DTYPES = ('float64', 'int64', 'bool', 'uint8', 'int32', 'float32', 'float64', 'bool', 'int64', 'uint8')
 DAMP = (0.5, 0.85, 0.99)
@@ -114,6 +116,52 @@ def star_w():
     return sym(4, [(0, 1), (0, 2), (0, 3)], w=[1, 3, 7])
 
 
+def grid(r, c):
+    return sym(r * c, [(i * c + j, i * c + j + 1) for i in range(r) for j in range(c - 1)] + [(i * c + j, (i + 1) * c + j) for i in range(r - 1) for j in range(c)])
+
+
+def lollipop(k, p_):
+    return sym(k + p_, [(i, j) for i in range(k) for j in range(i + 1, k)] + [(k - 1 + t, k + t) for t in range(p_)])
+
+
+def barbell(k, p_):
+    n = 2 * k + p_
+    return sym(n, [(i, j) for i in range(k) for j in range(i + 1, k)] + [(k + p_ + i, k + p_ + j) for i in range(k) for j in range(i + 1, k)]
+               + [(k - 1 + t, k + t) for t in range(p_ + 1)])
+
+
+def rand_tree(rs, n):
+    return sym(n, [(int(rs.randint(v)), v) for v in range(1, n)])
+
+
+BIG_N = (12, 16, 17, 24, 32, 33, 34, 40, 51, 55, 64, 65, 80, 100)
+
+
+def big_graphs(rs, n):
+    """connected graphs on exactly n nodes whose structure stresses size-dependent code paths: bipartite with unequal sides (periodic
+    walks), grids, trees, paths, slowly mixing lollipops / barbells, sparse random, cycles of both parities"""
+    G = []
+    a = max(1, n // 3)
+    G.append(('K%d,%d' % (a, n - a), kab(a, n - a)))
+    for r in (2, 3, 4, 5, 6, 7, 8):
+        if n % r == 0 and n // r >= r:
+            G.append(('grid%dx%d' % (r, n // r), grid(r, n // r)))
+    G.append(('tree', rand_tree(rs, n)))
+    G.append(('path', path(n)))
+    G.append(('star', kab(1, n - 1)))
+    k = max(3, n // 2)
+    G.append(('lollipop', lollipop(k, n - k)))
+    k = max(3, n // 3)
+    G.append(('barbell', barbell(k, n - 2 * k)))
+    G.append(('cycle', cycle(n)))
+    while True:
+        A = np.maximum(rand_tree(rs, n), rand_graph(rs, n, 3.0 / n, False))
+        if is_connected(A):
+            break
+    G.append(('sparse', A))
+    return G
+
+
 def rand_strong(rs, n, wmax):
     p = rs.permutation(n)
     A = np.zeros((n, n))
@@ -138,6 +186,8 @@ def gen_cases(rs, tier):
         dt = DTYPES[t_ % len(DTYPES)] if den == 1 else 'float64'
         if dt == 'bool' and A.max(initial=0) > 1:
             dt = 'uint8'
+        if len(A) > 16 and kind == 'und':      # scipy runs bool / uint8 / float32 eigenproblems in single precision: not judged at large n
+            dt = {'bool': 'int64', 'uint8': 'int32', 'float32': 'float64'}.get(dt, dt)
         cases.append({'fam': fam, 'kind': kind, 'A': A.astype(int).tolist(), 'den': int(den), 'd': list(ds), 'falff': falff,
                       'dtype': dt, 'order': 'F' if t_ % 4 == 2 else 'C'})
 
@@ -222,6 +272,40 @@ def gen_cases(rs, tier):
     if not quick:
         for A in all_graphs(3, True):
             add('any-dir3', A, kind='dirany')
+    # ---- size axis (n = 12 .. 100): structures that break size-dependent fast paths; judged by the defining-equation residuals
+    sizes = BIG_N
+    for n in sizes:
+        G = big_graphs(rs, n)
+        if quick:
+            G = [G[int(i)] for i in rs.choice(len(G), size=min(len(G), 3 if n <= 40 else 2), replace=False)]
+        for name, A in G:
+            if rs.rand() < 0.4:                      # weighted variant, weights 1..3
+                W = np.triu(rs.randint(1, 4, size=A.shape), 1); A = A * (W + W.T)
+            add('big-und:' + name.rstrip('0123456789,x'), A, ds=(DAMP[n % 3],), falff=[int(x) for x in rs.randint(1, 4, size=n)] if n % 2 else None)
+        # directed: a periodic chain (every cycle length a multiple of 3) and a sparse strongly connected digraph
+        m3 = n - n % 3
+        Ad = np.zeros((n, n)); cls = np.arange(n) % 3
+        for i in range(n):
+            for j in rs.choice(np.nonzero(cls == (cls[i] + 1) % 3)[0], size=2, replace=False):
+                Ad[i, j] = 1
+        if strongly_connected(Ad):
+            add('big-dir:period3', Ad, kind='dir', ds=(DAMP[n % 3],))
+        add('big-dir:sparse', rand_strong(rs, n, 2) * (rs.rand(n, n) < 0.15) + np.roll(np.eye(n), 1, axis=1), kind='dir', ds=(DAMP[(n + 1) % 3],))
+    # ---- self-connections (the quantifier does not exclude them; the defining equations hold with a non-empty diagonal)
+    for t in range(24 if quick else 200):
+        n = int(rs.randint(3, 8)) if t % 4 else int(rs.choice([12, 17, 33, 51]))
+        und_ = t % 3 != 2
+        if und_:
+            while True:
+                A = rand_graph(rs, n, min(0.9, max(0.4, 4.0 / n)), False, wmax=int(rs.choice([1, 3])))
+                if is_connected(A):
+                    break
+        else:
+            A = rand_strong(rs, n, int(rs.choice([1, 2])))
+        loops = rs.choice(n, size=int(rs.randint(1, max(2, n // 2))), replace=False)
+        for i in loops:
+            A[i, i] = int(rs.randint(1, 4)) if A.max() > 1 else 1
+        add('selfloop', A, kind='und' if und_ else 'dir', ds=(DAMP[t % 3],), falff=[int(x) for x in rs.randint(1, 4, size=n)] if t % 2 else None)
     # ---- rational weights k/den (den = 2,4,8,16): row / column strengths strictly between 0 and 1
     def frac_und(n, den, shape):
         while True:
@@ -280,6 +364,16 @@ def walk_counts(Ab, qmax):
                 rec(start, v, q + 1)
     for s in range(n):
         rec(s, s, 0)
+    return C
+
+
+def walk_counts_exact(Ab, qmax):
+    """exact walk counts with Python integers (object matrices): C[q] = B^q"""
+    n = len(Ab)
+    B = np.array(Ab.astype(int).tolist(), dtype=object)
+    C = [np.array(np.eye(n, dtype=int).tolist(), dtype=object)]
+    for q in range(1, qmax + 1):
+        C.append(C[-1].dot(B))
     return C
 
 
@@ -353,18 +447,17 @@ def run_case(c):
                 fail('mean_first_passage_time', 'mfpt-finite-real', {'M': str(M)})
             else:
                 M = M.real
-                rhs = np.zeros((n, n))
-                for i in range(n):
-                    for j in range(n):
-                        rhs[i, j] = 0.0 if i == j else 1 + sum(P[i, k] * M[k, j] for k in range(n) if k != j)
+                rhs = 1 + P @ M - P * np.diag(M)[None, :]        # 1 + sum_{k != j} P[i,k] M[k,j]
                 off = ~np.eye(n, dtype=bool)
                 if not close(M[off], rhs[off], tol):
-                    fail('mean_first_passage_time', 'mfpt-recurrence', {'M': M.tolist(), 'maxres': float(np.abs(M - rhs)[off].max())})
+                    w_ = int(np.argmax(np.abs(M - rhs)[off] / np.maximum(1, np.abs(rhs[off]))))
+                    fail('mean_first_passage_time', 'mfpt-recurrence', {'M': M.tolist() if n <= 12 else 'n=%d' % n, 'max_relative_residual': float((np.abs(M - rhs)[off] / np.maximum(1, np.abs(rhs[off])))[w_])})
                 if np.abs(np.diag(M)).max() > 1e-9 * ka:
                     fail('mean_first_passage_time', 'mfpt-diagonal', {'diag': np.diag(M).tolist()})
                 if (M[off] < 1 - 1e-9 * ka).any():
                     fail('mean_first_passage_time', 'mfpt-at-least-one-step', {'M': M.tolist()})
-                out['lines'].append(('mfpt', 'mfpt n=%d A=%s%s' % (n, mstr, dstr), {'M': M.ravel().tolist(), 'tol': tol}))
+                if n <= NMODEL:
+                    out['lines'].append(('mfpt', 'mfpt n=%d A=%s%s' % (n, mstr, dstr), {'M': M.ravel().tolist(), 'tol': tol}))
             de = guarded('diffusion_efficiency', bct.diffusion_efficiency, Ar.copy())
             if de is not None and M.shape == (n, n) and np.all(np.isfinite(M)):
                 g, E = de; E = np.asarray(E, dtype=float)
@@ -376,7 +469,14 @@ def run_case(c):
                     fail('diffusion_efficiency', 'diffeff-diagonal', {'diag': np.diag(E).tolist()})
                 elif not close(g, E[off].mean(), tol):
                     fail('diffusion_efficiency', 'diffeff-mean', {'g': float(g), 'mean': float(E[off].mean())})
-                out['lines'].append(('diffeff', 'diffeff n=%d A=%s%s' % (n, mstr, dstr), {'g': float(g), 'E': E.ravel().tolist(), 'tol': tol}))
+                else:                 # independently of bct's own MFPT: 1/E must satisfy the first-passage recurrence
+                    with np.errstate(all='ignore'):
+                        Mh = np.where(off, 1.0 / np.where(off, E, 1.0), 0.0)
+                    rh = 1 + P @ Mh
+                    if not close(Mh[off], rh[off], tol):
+                        fail('diffusion_efficiency', 'diffeff-recurrence', {'max_relative_residual': float((np.abs(Mh - rh)[off] / np.maximum(1, np.abs(rh[off]))).max())})
+                if n <= NMODEL:
+                  out['lines'].append(('diffeff', 'diffeff n=%d A=%s%s' % (n, mstr, dstr), {'g': float(g), 'E': E.ravel().tolist(), 'tol': tol}))
 
     # ---- PageRank
     deg = A.sum(0)
@@ -405,7 +505,8 @@ def run_case(c):
             elif (r < -1e-15).any():
                 fail('pagerank_centrality', 'pagerank-positive', dict(cond, r=r.tolist()))
             line = 'pagerank n=%d A=%s%s d=%s' % (n, mstr, dstr, fr(d)) + ('' if f is None else ' f=' + ','.join(str(x) for x in f))
-            out['lines'].append(('pagerank', line, {'r': r.tolist(), 'tol': tol}))
+            if n <= NMODEL:
+                out['lines'].append(('pagerank', line, {'r': r.tolist(), 'tol': tol}))
 
     # ---- spectral measures (undirected)
     if und and n >= 1:
@@ -416,10 +517,10 @@ def run_case(c):
             ref = np.diag(sla.expm(A))
             if Cs.shape != (n,) or not close(Cs, ref, tol):
                 fail('subgraph_centrality', 'expm-diagonal', {'Cs': np.asarray(Cs).tolist(), 'expm_diag': ref.tolist()})
-            if den == 1 and not single:
+            if den == 1 and not single and n <= NMODEL:
               out['lines'].append(('expdiag', 'expdiag n=%d A=%s terms=%d' % (n, mstr, n_terms(A)), {'S': np.asarray(Cs, dtype=float).tolist()}))
             # post-processing as coded, on the same eigh output (LAPACK is deterministic): dot(vecs*vecs, exp(vals)); oracle contract checked
-            if np.allclose(A, A.T) and Cs.shape == (n,) and not single:
+            if np.allclose(A, A.T) and Cs.shape == (n,) and not single and n <= NMODEL:
                 w_, V_ = sla.eigh(A)
                 okc = (np.abs(A @ V_ - V_ * w_[None, :]).max() <= 1e-8 * max(1.0, np.abs(w_).max())
                        and np.abs(V_ @ V_.T - np.eye(n)).max() <= 1e-10)
@@ -445,12 +546,13 @@ def run_case(c):
                     fail('eigenvector_centrality_und', 'eig-residual-lambda-max', {'v': v.tolist(), 'lambda_max': lam, 'residual': res})
                 Av = A @ v
                 # post-processing as coded on the same eig output: i = argmax(vals); abs(vecs[:, i]); oracle contract checked
-                w_, V_ = sla.eig(A) if not single else (np.array([1j]), np.zeros((1, 1), dtype=complex))
+                skipm = single or n > NMODEL
+                w_, V_ = sla.eig(A) if not skipm else (np.array([1j]), np.zeros((1, 1), dtype=complex))
                 # For a repeated non-maximal eigenvalue LAPACK may return a complex-conjugate pair (imaginary parts ~1e-16) with complex
                 # columns; the contract `EigOracle A vals vecs i` only concerns the selected column i and the list of eigenvalues.
                 i_ = int(np.argmax(w_)); wr = np.real(w_); sc = max(1.0, np.abs(wr).max())
-                if single:
-                    pass        # single-precision LAPACK path: judged by the search predicates only
+                if skipm:
+                    pass        # single-precision LAPACK path / large n: judged by the search predicates only
                 elif np.abs(np.imag(w_)).max() <= 1e-9 * sc and np.abs(np.imag(V_[:, i_])).max() == 0:
                     col = np.real(V_[:, i_])
                     okc = (np.abs(A @ col - wr[i_] * col).max() <= 1e-8 * sc and abs(col @ col - 1) <= 1e-10
@@ -463,7 +565,7 @@ def run_case(c):
                     out['contract'].append(('eig-selected-column-not-real', False))   # the theorem's hypothesis is not met: reported as a break
                 exp = {'nrm2': float(v @ v), 'vmin': float(v.min()), 'ray': float(v @ Av / (v @ v)) if v @ v > 0 else None,
                        'lam': lam, 'conn': bool(conn)}
-                if den == 1 and not single:
+                if den == 1 and not single and n <= NMODEL:
                   out['lines'].append(('eigcert', 'eigcert n=%d A=%s v=%s' % (n, mstr, ','.join(fr(x) for x in v)), exp))
 
     # ---- findwalks (binary directed / undirected; weights discarded)
@@ -474,28 +576,37 @@ def run_case(c):
             Wq = np.asarray(Wq); wlq = np.asarray(wlq)
             out['ops'].append('findwalks')
             Ab = A != 0
-            C = walk_counts(Ab, n - 1) if n <= 6 else walk_counts_dp(Ab, n - 1)
+            C = walk_counts(Ab, n - 1) if n <= 6 else walk_counts_exact(Ab, n - 1)
             if Wq.shape != (n, n, n):
                 fail('findwalks', 'walk-shape', {'shape': list(Wq.shape)})
             else:
-                bad = [q for q in range(1, n) if not np.array_equal(Wq[:, :, q], C[q])]
+                def same_slice(q):
+                    if n <= 6:
+                        return np.array_equal(Wq[:, :, q], C[q])
+                    mx = max(int(v) for v in C[q].ravel())
+                    if mx < 2 ** 53:                                   # exactly representable: exact comparison
+                        return np.array_equal(Wq[:, :, q], C[q].astype(float))
+                    ref = C[q].astype(float)                           # beyond 2^53 the float products round: 1e-9 relative
+                    return bool(np.all(np.abs(Wq[:, :, q] - ref) <= 1e-9 * np.maximum(1.0, ref)))
+                bad = [q for q in range(1, n) if not same_slice(q)]
                 artefact = False
-                if bad and dt in ('bool', 'uint8'):
+                if bad and dt in ('bool', 'uint8') and n <= 6:
                     # known defect: `binarize` keeps the storage type, so the powers are computed in it: logical products for bool
                     # (walk *existence*), arithmetic modulo 256 for uint8. Attributed only if the output is exactly that.
                     emu = [(C[q] > 0).astype(float) if dt == 'bool' else (C[q] % 256).astype(float) for q in range(n)]
                     artefact = all(np.array_equal(Wq[:, :, q], emu[q]) for q in range(1, n))
                 if bad:
                     q = bad[0]
-                    fail('findwalks', 'walk-count', {'q': q, 'dtype': dt, 'Wq_q': Wq[:, :, q].tolist(), 'true': C[q].tolist()}, {'dtype_artefact': bool(artefact)})
+                    fail('findwalks', 'walk-count', {'q': q, 'dtype': dt, 'Wq_q': Wq[:, :, q].tolist() if n <= 12 else 'n=%d' % n,
+                                                     'true': [[int(v) for v in r_] for r_ in np.asarray(C[q]).tolist()] if n <= 12 else 'n=%d' % n}, {'dtype_artefact': bool(artefact)})
                 if np.any(Wq[:, :, 0] != 0):
                     fail('findwalks', 'walk-slice0', {'Wq_0': Wq[:, :, 0].tolist()})
-                if not np.array_equal(wlq, Wq.sum(0).sum(0)) or twalk != Wq.sum():
+                if not close(wlq, Wq.sum(0).sum(0), 1e-12) or not close(twalk, Wq.sum(), 1e-12):
                     fail('findwalks', 'walk-totals', {'twalk': float(twalk), 'wlq': wlq.tolist()})
                 sl = ';'.join(mat_str(Wq[:, :, q]) for q in range(n))
                 if artefact:
                     out['nocorr'] = 1
-                else:
+                elif n <= 8:
                   out['lines'].append(('findwalks', 'findwalks n=%d A=%s' % (n, mstr),
                                      {'line': 'Wq=%s twalk=%d wlq=%s' % (sl, int(twalk), ','.join(str(int(x)) for x in wlq))}))
     return out
@@ -700,7 +811,12 @@ def main():
     ck.assumptions += ['random-walk measures only on connected undirected / strongly connected directed inputs; spectral measures on symmetric non-negative input',
                        'LAPACK / expm / libm are outside the proof: float results are compared with exact rational values at 1e-8 relative',
                        'PageRank fixed point is asserted only when no column of A is empty (otherwise the code rescales, see notes/C18.md)']
+    # T-gen: whole bodies of pagerank_centrality / mean_first_passage_time re-extracted from /repo's current source
+    ck.cov['cores'] = cores.generate(families=['walks'])
+    for p_ in ck.cov['cores']['problems']:
+        ck.corr_break('core extractor (translate/cores.py)', p_)
     ok = ck.lean_gate(['BctVerif.Props.C18'], extra_modules=['BctVerif.Model.Walks'])
+    ck.lean_gate([], gen_modules=['BctVerif.Gen.CoresWalks'])
     if ck.tier == 'thorough' and ok:
         ck.leanchecker(['BctVerif.Props.C18', 'BctVerif.Model.Walks'])
     if ck.replay:
